@@ -190,6 +190,12 @@ def run_c02(ctx, q, b, stats):
         ctx.replay(b, allb, opts=dict(cfgs='/'.join(LOCAL_PLAIN + ['memtree']), kcfgs='prune+memtree/mvcc+memtree+val', api='store',
                                      salt=2, variants=2, emptyval=2, stats=stats, keepdir=keep, histdir=vlib.REPLAYS), par=8, count=False, timeout=7200)
     used = set(LOCAL_PLAIN + ['memtree+val', 'prefix+memtree', 'prune+memtree+val'])
+    # every history of 3 updates / commits of ONE key with TWO values, one of which is concretised to the empty byte string
+    # (an overwrite with the empty value and back, under every configuration that stores / elides leaf values)
+    alle = ctx.tlc_genall('StateStore_All', 'StateStore_AllC02e.cfg', timeout=7200)
+    for salt in (1, 2, 3):
+        ctx.replay(b, alle, opts=dict(cfgs='/'.join(LOCAL_PLAIN + ['memtree+val']), api='store', salt=salt, variants=2, emptyval=2, stats=stats),
+                   par=8, count=False, timeout=7200)
     nround = 2 if q else 4
     per = 40 if q else 75
     for i in range(nround):
